@@ -115,6 +115,36 @@ Theorem C05_select_first_index_rule_refuted :
                            MV (VByte [3%nat] [10; 20; 30]%N) (FL false true false)] out = Some fl_none.
 Proof. exact select_first_index_rule_refuted. Qed.
 
+(** take / drop with one integer amount and no fill (dyadic/structure.rs:491-612, 759-822) are now
+    under C05_wf_preserved ([CTake z], [CDrop z]); their lemmas stated on their own: *)
+Theorem C05_take1_wf : forall z m r, wf m -> p_take1 z m = Ok r -> wf r.
+Proof. exact take1_wf. Qed.
+Theorem C05_drop1_wf : forall z m r, wf m -> p_drop1 z m = Ok r -> wf r.
+Proof. exact drop1_wf. Qed.
+
+(** a result made of the rows of [b] at non-decreasing in-bounds positions keeps both
+    sortedness marks; keep (scalar natural count or list of natural counts) is the instance
+    with the positions [kidx 0 counts] *)
+Theorem C05_monotone_selection_keeps_marks : forall b out fb bo (is : list nat) d,
+  flags_okb b fb = true ->
+  vrows out = map (fun i => nth i (vrows b) d) is ->
+  Forall (fun i => (i < length (vrows b))%nat) is ->
+  chain Nat.leb is = true ->
+  (bo = true -> bool_ok out = true) ->
+  flags_okb out (FL bo (f_up fb) (f_down fb)) = true.
+Proof. exact monotone_selection_keeps_marks. Qed.
+Theorem C05_keep_marks_sound : forall b out fb bo (cs : list nat) d,
+  flags_okb b fb = true -> length cs = length (vrows b) ->
+  vrows out = map (fun i => nth i (vrows b) d) (kidx 0 cs) ->
+  (bo = true -> bool_ok out = true) ->
+  flags_okb out (FL bo (f_up fb) (f_down fb)) = true.
+Proof. exact keep_marks_sound. Qed.
+(** rotate (and every primitive that clears the sortedness marks while moving elements) owes
+    only the boolean mark *)
+Theorem C05_cleared_marks_sound : forall v v' f, (bool_ok v = true -> bool_ok v' = true) ->
+  flags_okb v f = true -> flags_okb v' (clear_sorted f) = true.
+Proof. exact cleared_marks_sound. Qed.
+
 (** non-vacuity: a non-trivial well-formed marked argument and a run of the model on it *)
 Example C05_nonvacuous :
   let a := MV (VBox [3]%nat [VNum [2]%nat [0; F_NEG_ZERO]%N; VByte []%nat [3]%N; VChar [1]%nat [97]%N]) (FL false false false) in
@@ -141,3 +171,8 @@ Print Assumptions C05_pre_both_fixed_guard.
 Print Assumptions C05_handle_pre_sound.
 Print Assumptions C05_select_marks_sound.
 Print Assumptions C05_select_first_index_rule_refuted.
+Print Assumptions C05_take1_wf.
+Print Assumptions C05_drop1_wf.
+Print Assumptions C05_monotone_selection_keeps_marks.
+Print Assumptions C05_keep_marks_sound.
+Print Assumptions C05_cleared_marks_sound.
